@@ -94,6 +94,7 @@ Inductive case :=
         (w : Z * Z * Z * Z * Z) (chain : Z) (mev : bool) (ts : Z)
         (next : Z) (before after : list (Z * Z * Z)) (res : Z)
 | CFees (mult cf sf gas : Z) (got : option (Z * Z * Z))
+| CUpsert (mult : Z) (accepted : bool)
 | CQueue (cfg : list (Z * Z) * Z * Z) (nv : Z) (steps : list (op * (list qobs * list (list Z)))).
 
 Definition check (c : case) : bool :=
@@ -109,5 +110,6 @@ Definition check (c : case) : bool :=
       list_eqb zzz_eqb (map queued_proj (qs_msgs s')) after && (enq_code r =? res)
   | CFees mult cf sf gas got =>
       option_eqb zzz_eqb (fee_proj (fees_for mult cf sf gas)) got
+  | CUpsert mult accepted => Bool.eqb (valid_multiplier mult) accepted
   | CQueue cfg nv steps => check_steps (mk_cfg cfg) nv init steps
   end.
